@@ -14,6 +14,18 @@ use crate::{
     types::*,
 };
 
+// Upper bound on how deeply body structures (and body extension lists) may be
+// nested. Each level costs one round of parser recursion, so without a bound a
+// short response made of nothing but '(' would exhaust the stack.
+const MAX_NESTING: usize = 32;
+
+fn nesting_too_deep<O>(i: &[u8]) -> IResult<&[u8], O> {
+    Err(nom::Err::Failure(nom::error::Error::new(
+        i,
+        nom::error::ErrorKind::TooLarge,
+    )))
+}
+
 // body-fields     = body-fld-param SP body-fld-id SP body-fld-desc SP
 //                   body-fld-enc SP body-fld-octets
 fn body_fields(i: &[u8]) -> IResult<&[u8], BodyFields> {
@@ -48,7 +60,7 @@ fn body_fields(i: &[u8]) -> IResult<&[u8], BodyFields> {
 //                   [SP body-fld-loc *(SP body-extension)]]]
 //                     ; MUST NOT be returned on non-extensible
 //                     ; "BODY" fetch
-fn body_ext_1part(i: &[u8]) -> IResult<&[u8], BodyExt1Part> {
+fn body_ext_1part(depth: usize, i: &[u8]) -> IResult<&[u8], BodyExt1Part> {
     let (i, (md5, disposition, language, location, extension)) = tuple((
         // Per RFC 1864, MD5 values are base64-encoded
         opt_opt(preceded(tag(" "), nstring_utf8)),
@@ -56,7 +68,7 @@ fn body_ext_1part(i: &[u8]) -> IResult<&[u8], BodyExt1Part> {
         opt_opt(preceded(tag(" "), body_lang)),
         // Location appears to reference a URL, which by RFC 1738 (section 2.2) should be ASCII
         opt_opt(preceded(tag(" "), nstring_utf8)),
-        opt(preceded(tag(" "), body_extension)),
+        opt(preceded(tag(" "), |i| body_extension_nested(depth, i))),
     ))(i)?;
     Ok((
         i,
@@ -74,14 +86,14 @@ fn body_ext_1part(i: &[u8]) -> IResult<&[u8], BodyExt1Part> {
 //                   [SP body-fld-loc *(SP body-extension)]]]
 //                     ; MUST NOT be returned on non-extensible
 //                     ; "BODY" fetch
-fn body_ext_mpart(i: &[u8]) -> IResult<&[u8], BodyExtMPart> {
+fn body_ext_mpart(depth: usize, i: &[u8]) -> IResult<&[u8], BodyExtMPart> {
     let (i, (param, disposition, language, location, extension)) = tuple((
         opt_opt(preceded(tag(" "), body_param)),
         opt_opt(preceded(tag(" "), body_disposition)),
         opt_opt(preceded(tag(" "), body_lang)),
         // Location appears to reference a URL, which by RFC 1738 (section 2.2) should be ASCII
         opt_opt(preceded(tag(" "), nstring_utf8)),
-        opt(preceded(tag(" "), body_extension)),
+        opt(preceded(tag(" "), |i| body_extension_nested(depth, i))),
     ))(i)?;
     Ok((
         i,
@@ -140,14 +152,22 @@ fn body_param(i: &[u8]) -> IResult<&[u8], BodyParams> {
     ))(i)
 }
 
+#[cfg(test)]
 fn body_extension(i: &[u8]) -> IResult<&[u8], BodyExtension> {
+    body_extension_nested(0, i)
+}
+
+fn body_extension_nested(depth: usize, i: &[u8]) -> IResult<&[u8], BodyExtension> {
+    if depth > MAX_NESTING {
+        return nesting_too_deep(i);
+    }
     alt((
         map(number, BodyExtension::Num),
         // Cannot find documentation on character encoding for body extension values.
         // So far, assuming UTF-8 seems fine, please report if you run into issues here.
         map(nstring_utf8, |v| BodyExtension::Str(v.map(Cow::Borrowed))),
         map(
-            parenthesized_nonempty_list(body_extension),
+            parenthesized_nonempty_list(|i| body_extension_nested(depth + 1, i)),
             BodyExtension::List,
         ),
     ))(i)
@@ -168,7 +188,7 @@ fn body_disposition(i: &[u8]) -> IResult<&[u8], Option<ContentDisposition>> {
     ))(i)
 }
 
-fn body_type_basic(i: &[u8]) -> IResult<&[u8], BodyStructure> {
+fn body_type_basic(depth: usize, i: &[u8]) -> IResult<&[u8], BodyStructure> {
     map(
         tuple((
             string_utf8,
@@ -176,7 +196,7 @@ fn body_type_basic(i: &[u8]) -> IResult<&[u8], BodyStructure> {
             string_utf8,
             tag(" "),
             body_fields,
-            body_ext_1part,
+            |i| body_ext_1part(depth, i),
         )),
         |(ty, _, subtype, _, fields, ext)| BodyStructure::Basic {
             common: BodyContentCommon {
@@ -201,7 +221,7 @@ fn body_type_basic(i: &[u8]) -> IResult<&[u8], BodyStructure> {
     )(i)
 }
 
-fn body_type_text(i: &[u8]) -> IResult<&[u8], BodyStructure> {
+fn body_type_text(depth: usize, i: &[u8]) -> IResult<&[u8], BodyStructure> {
     map(
         tuple((
             tag_no_case("\"TEXT\""),
@@ -211,7 +231,7 @@ fn body_type_text(i: &[u8]) -> IResult<&[u8], BodyStructure> {
             body_fields,
             tag(" "),
             number,
-            body_ext_1part,
+            |i| body_ext_1part(depth, i),
         )),
         |(_, _, subtype, _, fields, _, lines, ext)| BodyStructure::Text {
             common: BodyContentCommon {
@@ -237,7 +257,7 @@ fn body_type_text(i: &[u8]) -> IResult<&[u8], BodyStructure> {
     )(i)
 }
 
-fn body_type_message(i: &[u8]) -> IResult<&[u8], BodyStructure> {
+fn body_type_message(depth: usize, i: &[u8]) -> IResult<&[u8], BodyStructure> {
     map(
         tuple((
             tag_no_case("\"MESSAGE\" \"RFC822\""),
@@ -246,10 +266,10 @@ fn body_type_message(i: &[u8]) -> IResult<&[u8], BodyStructure> {
             tag(" "),
             envelope,
             tag(" "),
-            body,
+            |i| body_nested(depth + 1, i),
             tag(" "),
             number,
-            body_ext_1part,
+            |i| body_ext_1part(depth, i),
         )),
         |(_, _, fields, _, envelope, _, body, _, lines, ext)| BodyStructure::Message {
             common: BodyContentCommon {
@@ -277,9 +297,14 @@ fn body_type_message(i: &[u8]) -> IResult<&[u8], BodyStructure> {
     )(i)
 }
 
-fn body_type_multipart(i: &[u8]) -> IResult<&[u8], BodyStructure> {
+fn body_type_multipart(depth: usize, i: &[u8]) -> IResult<&[u8], BodyStructure> {
     map(
-        tuple((many1(body), tag(" "), string_utf8, body_ext_mpart)),
+        tuple((
+            many1(|i| body_nested(depth + 1, i)),
+            tag(" "),
+            string_utf8,
+            |i| body_ext_mpart(depth, i),
+        )),
         |(bodies, _, subtype, ext)| BodyStructure::Multipart {
             common: BodyContentCommon {
                 ty: ContentType {
@@ -298,11 +323,18 @@ fn body_type_multipart(i: &[u8]) -> IResult<&[u8], BodyStructure> {
 }
 
 pub(crate) fn body(i: &[u8]) -> IResult<&[u8], BodyStructure> {
+    body_nested(0, i)
+}
+
+fn body_nested(depth: usize, i: &[u8]) -> IResult<&[u8], BodyStructure> {
+    if depth > MAX_NESTING {
+        return nesting_too_deep(i);
+    }
     paren_delimited(alt((
-        body_type_text,
-        body_type_message,
-        body_type_basic,
-        body_type_multipart,
+        |i| body_type_text(depth, i),
+        |i| body_type_message(depth, i),
+        |i| body_type_basic(depth, i),
+        |i| body_type_multipart(depth, i),
     )))(i)
 }
 
